@@ -29,11 +29,25 @@
                    (the first call starts the one background drain)
      StopReturn    Stop returns: "timeout" (caller deadline expired, nothing else happens) or
                    "done" (the drain finished: group.go finishStop closes stopDone)
+     CancelItem    environment: the submitter's context of one item (SendBatchItem.Context) is
+                   cancelled while the item is part of a first-attempt request at the Appender.
+                   The code looks at item contexts when it cuts a batch (activeAppendItems) and
+                   when it filters the misses of a recovered batch before the bounded second
+                   attempt (append.go appendBatchErrorCompletionsOrRecoveriesAndRetry): a
+                   cancelled miss gets the terminal result "canceled" in its own position and
+                   is left out of the retry; every other outcome ignores the cancellation
+     Reclaim       environment: the shard's opportunistic cleanup (shard.go getOrCreate ->
+                   reclaimIdleWritersLocked, run by a first-ever send to another channel of the
+                   shard once WriterIdleRetention has passed) drops the channel's writer.  The
+                   code's own condition (writer.go idleExpired): no inbox, no pending work, NO
+                   append in flight, no undrained completion, no post-commit backlog.  Nothing
+                   observable changes: the next send to the channel creates a new writer
 
    Message ids are abstracted to the id of the item whose record was stored ("owner").
    Not modelled: routing (Router only groups items by channel and folds results back by position;
    the harness checks that through the same observables), write-fenced targets (pre-append
-   lookup), item contexts / deadlines, realtime NoPersist sends, recipient fan-out, the
+   lookup), item deadlines and item contexts cancelled at other points than CancelItem (before
+   admission, while waiting for an append slot), realtime NoPersist sends, recipient fan-out, the
    post-commit retry FIFO (pool overload), handoff reservations (capacity is never reached). *)
 EXTENDS Naturals, Sequences, FiniteSets, SequencesExt, TLC
 
@@ -45,6 +59,7 @@ CONSTANTS
   MaxBatch,    \* items per SubmitLocal call
   MaxFail,     \* injected (unexpected) append failures
   MaxStops,    \* Stop calls
+  MaxCancel,   \* items whose submitter gives up (CancelItem)
   Inflights,   \* values of AppendInflightBatchesPerChannel
   Hws,         \* values of ChannelBacklogHighWatermark
   Caps,        \* values of the shard admission capacity (admitted, unfinished futures)
@@ -56,7 +71,8 @@ CONSTANTS
 
 VARIABLES
   cfg,       \* [inflight, hw, cap, eff]
-  items,     \* sequence of admitted items [c, k, p, b, orig]; the index is the item id
+  items,     \* sequence of admitted items [c, k, p, b, orig, x]; the index is the item id
+             \* (x: the submitter cancelled the item's context)
   nbat,      \* number of admitted batches
   inbox,     \* [Chans -> Seq(batch record [first, n])]   admitted, not yet prepared
   pend,      \* [Chans -> Seq(item id)]                   prepared, waiting for an append slot
@@ -86,6 +102,7 @@ ROk(m, s)  == [t |-> "ok",   mid |-> m, seq |-> s]
 RFail      == [t |-> "fail", mid |-> 0, seq |-> 0]
 RBusy      == [t |-> "busy", mid |-> 0, seq |-> 0]
 RMiss      == [t |-> "miss", mid |-> 0, seq |-> 0]   \* internal: lookup miss, not yet terminal
+RCanceled  == [t |-> "canceled", mid |-> 0, seq |-> 0]   \* the submitter's own context error
 
 Ran(s) == {s[j] : j \in 1..Len(s)}
 MinOf(S) == CHOOSE h \in S : \A g \in S : h <= g
@@ -130,7 +147,7 @@ TypeOK ==
   /\ Len(items) <= MaxItems
   /\ \A i \in 1..Len(items) : items[i].c \in Chans /\ items[i].k \in Keys \cup {NoKey} /\ items[i].p \in Pays
   /\ Len(res) = Len(items)
-  /\ \A i \in 1..Len(res) : res[i].t \in {"none", "ok", "fail", "busy"}
+  /\ \A i \in 1..Len(res) : res[i].t \in {"none", "ok", "fail", "busy", "canceled"}
   /\ stopping \in BOOLEAN
   /\ Len(stops) <= MaxStops
 
@@ -179,7 +196,7 @@ Submit(c, its) ==
      ELSE
        /\ Len(items) + n <= MaxItems
        /\ items' = items \o [j \in 1..n |-> [c |-> c, k |-> its[j].k, p |-> its[j].p, b |-> nbat + 1,
-                                             orig |-> KeyPos(c, its[j].k)]]
+                                             orig |-> KeyPos(c, its[j].k), x |-> FALSE]]
        /\ res' = res \o [j \in 1..n |-> RNone]
        /\ nbat' = nbat + 1
        /\ inbox' = [inbox EXCEPT ![c] = Append(@, [first |-> Len(items) + 1, n |-> n])]
@@ -291,10 +308,15 @@ Lookup(c, x) ==
             it   == items[b.uniq[j]]
             ans  == LookupOf(c, it.k, it.p)
             rj   == IF ans.t = "ok" THEN ans ELSE IF b.ph = "lk" THEN RMiss ELSE RFail
-            r2   == [b.r EXCEPT ![j] = rj]
+            r0   == [b.r EXCEPT ![j] = rj]
             rec2 == b.rec \/ ans.t = "ok"
-            rest == NeedAfter(b, r2, j)
+            rest == NeedAfter(b, r0, j)
             last == rest = {}
+            \* the retry filter: a miss whose submitter has given up meanwhile is answered with its
+            \* own context error and left out of the bounded second attempt (only when there is one)
+            r2   == IF last /\ b.ph = "lk" /\ rec2
+                      THEN [h \in 1..Len(r0) |-> IF r0[h].t = "miss" /\ items[b.uniq[h]].x THEN RCanceled ELSE r0[h]]
+                      ELSE r0
             misses == \E h \in 1..Len(r2) : r2[h].t = "miss"
             ph2  == IF ~last THEN b.ph
                     ELSE IF b.ph = "rlk" THEN "done"
@@ -322,6 +344,27 @@ EffEnd(c) ==
   /\ effrun' = [effrun EXCEPT ![c] = 0]
   /\ ev' = [a |-> "EffEnd", c |-> c, mid |-> effrun[c]]
   /\ UNCHANGED <<cfg, items, nbat, inbox, pend, infl, log, res, effq, stops, stopping, fails>>
+
+\* The submitter of item i cancels the item's context while i is part of a first-attempt request
+\* parked at the Appender (the only point where the harness can do it deterministically; an item
+\* that is coalesced onto another one has no say: the owner's context counts).
+CancelItem(i) ==
+  /\ i \in 1..Len(items) /\ ~items[i].x
+  /\ Cardinality({h \in 1..Len(items) : items[h].x}) < MaxCancel
+  /\ \E x \in 1..Len(infl[items[i].c]) :
+        infl[items[i].c][x].ph = "start" /\ i \in Ran(infl[items[i].c][x].uniq)
+  /\ items' = [items EXCEPT ![i].x = TRUE]
+  /\ ev' = [a |-> "CancelItem", i |-> i]
+  /\ UNCHANGED <<cfg, nbat, inbox, pend, infl, log, res, effq, effrun, effdone, stops, stopping, fails>>
+
+\* The shard drops the writer of channel c (see the header).  Enabled only when the writer owns
+\* nothing; nothing observable changes.
+Reclaimable(c) == /\ inbox[c] = <<>> /\ pend[c] = <<>> /\ infl[c] = <<>>
+                  /\ effq[c] = <<>> /\ effrun[c] = 0
+Reclaim(c) ==
+  /\ Reclaimable(c)
+  /\ ev' = [a |-> "Reclaim", c |-> c]
+  /\ UNCHANGED <<cfg, items, nbat, inbox, pend, infl, log, res, effq, effrun, effdone, stops, stopping, fails>>
 
 \* Group.Stop(ctx) is called: its first statement sets `stopping` (the first call also starts
 \* the one background drain, which is simply the pipeline running on with admission closed)
@@ -352,12 +395,15 @@ AppendEndAny   == \E c \in Chans, x \in 1..cfg.inflight, o \in Outs : AppendEnd(
 LookupAny      == \E c \in Chans, x \in 1..cfg.inflight : Lookup(c, x)
 EffStartAny    == \E c \in Chans : EffStart(c)
 EffEndAny      == \E c \in Chans : EffEnd(c)
+CancelAny      == \E i \in 1..MaxItems : CancelItem(i)
+ReclaimAny     == \E c \in Chans : Reclaim(c)
 StopCallAny    == \E dl \in {"short", "long"} : StopCall(dl)
 StopReturnAny  == \E s \in 1..MaxStops, r \in {"done", "timeout"} : StopReturn(s, r)
 
 Next ==
   \/ SubmitAny \/ PrepareAny \/ AppendStartAny \/ AppendEndAny \/ LookupAny
   \/ EffStartAny \/ EffEndAny \/ StopCallAny \/ StopReturnAny
+  \/ CancelAny \/ ReclaimAny
 
 \* Fairness: the writer's own steps, the Appender / store answering, effects finishing, and a
 \* Stop returning once the drain has finished.  No fairness on callers (Submit, StopCall) nor on
@@ -409,11 +455,20 @@ C29_Order ==
        /\ (StrictOrder \/ cfg.inflight = 1 \/ (~ByRetry(i) /\ ~ByRetry(j)))
        => res[i].seq < res[j].seq
 
+\* "canceled" is only ever the answer to an item whose submitter did cancel it -- or, as the code
+\* has it, to an identical send (same key and payload) that may have been coalesced onto such an
+\* item: the waiters of a coalesced request receive their owner's completion (append.go
+\* expandCompletions), the owner's context error included
+GaveUpFor(i) == \E h \in 1..Len(items) :
+  /\ items[h].x
+  /\ h = i \/ (items[h].c = items[i].c /\ items[h].k # NoKey /\ items[h].k = items[i].k /\ items[h].p = items[i].p)
+C29_CanceledOnlyIfCancelled == \A i \in 1..Len(items) : res[i].t = "canceled" => GaveUpFor(i)
+
 \* every item gets exactly one result: a result, once given, never changes
 C29_ExactlyOne == [][\A i \in 1..Len(items) : res[i].t # "none" => res'[i] = res[i]]_vars
 
 \* ---- C41 ------------------------------------------------------------------------------------
-C41_NoAdmitAfterStop == [][stopping => (nbat' = nbat /\ items' = items)]_vars
+C41_NoAdmitAfterStop == [][stopping => (nbat' = nbat /\ Len(items') = Len(items))]_vars
 \* a Stop whose deadline expired changes nothing but its own return
 C41_TimeoutKeepsWork ==
   [][\A s \in 1..Len(stops) : (stops[s].st # "timeout" /\ stops'[s].st = "timeout") =>
